@@ -1,4 +1,4 @@
-import SSV.Proofs.StreamRun
+import SSV.Proofs.StreamResponse
 import SSV.Model.StreamToy
 /-
 C01 — Shadowsocks 2022 TCP tunnel delivers the exact byte stream both ways.
@@ -155,6 +155,78 @@ theorem p_first_partial (C : Crypto) (cfg : ClientCfg) (ch : DialChoice) (target
     · simpa using hem.1
     · simpa using hem.2.1
 
+
+/-- **response_roundtrip** (server → client, first write and first read): a server conn that has not
+written yet writes `b` (any non-empty length: the first `firstCap` bytes travel with the response
+header — `4096 ≤ firstCap ≤ 0xFFFF` whatever capacities the Go allocator chose, `CapsOk` — the rest as
+ordinary chunks), then performs any further `Write` / `ReadFrom` calls. The transport hands the
+client's first read the fixed-length part (`hfr`: one segment that long, or `io.ReadFull` when
+segmented headers are allowed). Then the client's first call — `Read` with any buffer length,
+`WriteTo`, or the tunnel copy into a server conn (started or not) — hands over the first bytes of
+`b` followed by the later writes, in order, and leaves a plain reader in sync with the remaining
+chunks, so every later call is covered by `stream_roundtrip`'s invariant (`run_ok`). -/
+theorem response_roundtrip (C : Crypto) (hC : AeadOK C) (s : SWriter) (hs : s.w = none) (ch : RespChoice)
+    (hcaps : CapsOk s.respPrefix.length s.psk.length ch = true) (hsalt : ch.salt.length = s.psk.length)
+    (b : Bytes) (hb : b.length ≠ 0) (calls : List WCall)
+    (c : CReader) (now : Int) (hts : ClockOK ch.ts now)
+    (hr : c.r = none) (hpsk : c.psk = s.psk) (hpre : c.respPrefix = s.respPrefix) (hrs : c.reqSalt = s.reqSalt)
+    (hrsl : s.reqSalt.length = s.psk.length)
+    (hfr : ∃ w1, (s.write C ch b).2.w = some w1 ∧
+      firstRead c.allowSeg (c.respPrefix.length + c.psk.length + TCPRequestFixedLengthHeaderLength + c.psk.length + tagSize) c.segs =
+        .ok (((s.write C ch b).1 ++ (w1.emit C (calls.flatMap WCall.chunks)).1).flatten.take
+              (c.respPrefix.length + c.psk.length + TCPRequestFixedLengthHeaderLength + c.psk.length + tagSize))
+            (((s.write C ch b).1 ++ (w1.emit C (calls.flatMap WCall.chunks)).1).flatten.drop
+              (c.respPrefix.length + c.psk.length + TCPRequestFixedLengthHeaderLength + c.psk.length + tagSize))) :
+    let stream := b ++ (calls.map WCall.data).flatten
+    (∀ n, ∃ r' cs', (c.read C now n).2.r = some r' ∧ Sync C r' cs' ∧ (c.read C now n).1.err = none ∧
+        stream = (c.read C now n).1.bytes ++ pending r' cs' ∧ (0 < n → (c.read C now n).1.bytes ≠ [])) ∧
+    ((c.writeTo C now).1.bytes = stream ∧ (c.writeTo C now).1.err = none) ∧
+    (∀ started, (c.tunnel C now started).1.bytes = stream ∧ (c.tunnel C now started).1.err = none) := by
+  intro stream
+  obtain ⟨w1, hw1, hfr⟩ := hfr
+  obtain ⟨w1', hw1', hwire⟩ := SWriter_first_write C s hs ch b hb (calls.flatMap WCall.chunks) _ rfl
+  have : w1' = w1 := by rw [hw1] at hw1'; exact (Option.some.inj hw1').symm
+  subst this
+  have hcap := firstCap_bounds _ _ ch hcaps
+  let cap := firstCap s.respPrefix.length s.psk.length ch
+  have hp0 : (b.take cap).length ≠ 0 := by simp only [List.length_take]; omega
+  have hp1 : (b.take cap).length ≤ streamMaxPayloadSize := by simp only [List.length_take]; omega
+  have hv : ValidChunks (writeChunks (b.drop cap) ++ calls.flatMap WCall.chunks) :=
+    ValidChunks.append (writeChunks_valid _) (calls_valid calls)
+  -- the fixed-length part of the wire
+  have hlenfix : (s.respPrefix ++ ch.salt ++ C.enc (C.kdf s.psk ch.salt) 0 (respHeader ch.ts s.reqSalt (b.take cap).length)).length =
+      s.respPrefix.length + s.psk.length + TCPRequestFixedLengthHeaderLength + s.psk.length + tagSize := by
+    simp only [List.length_append, hC.enc_len, respHeader, List.length_cons, be64_length, be16_length, hsalt, hrsl]
+    have : TCPRequestFixedLengthHeaderLength = 11 := rfl
+    omega
+  rw [hpre, hpsk, hwire] at hfr
+  have htake : (respWire C s ch (b.take cap) (writeChunks (b.drop cap) ++ calls.flatMap WCall.chunks)).take
+      (s.respPrefix.length + s.psk.length + TCPRequestFixedLengthHeaderLength + s.psk.length + tagSize) =
+      s.respPrefix ++ ch.salt ++ C.enc (C.kdf s.psk ch.salt) 0 (respHeader ch.ts s.reqSalt (b.take cap).length) := by
+    rw [respWire, ← hlenfix, List.take_left]
+  have hdrop : (respWire C s ch (b.take cap) (writeChunks (b.drop cap) ++ calls.flatMap WCall.chunks)).drop
+      (s.respPrefix.length + s.psk.length + TCPRequestFixedLengthHeaderLength + s.psk.length + tagSize) =
+      C.enc (C.kdf s.psk ch.salt) 1 (b.take cap) ++
+        encodeChunks C (C.kdf s.psk ch.salt) 2 (writeChunks (b.drop cap) ++ calls.flatMap WCall.chunks) := by
+    rw [respWire, ← hlenfix, List.drop_left]
+  rw [htake, hdrop] at hfr
+  have hfr2 : firstRead c.allowSeg
+      (c.respPrefix.length + c.psk.length + TCPRequestFixedLengthHeaderLength + c.psk.length + tagSize) c.segs =
+      .ok (c.respPrefix ++ ch.salt ++ C.enc (C.kdf c.psk ch.salt) 0 (respHeader ch.ts c.reqSalt (b.take cap).length))
+          (C.enc (C.kdf c.psk ch.salt) 1 (b.take cap) ++
+            encodeChunks C (C.kdf c.psk ch.salt) 2 (writeChunks (b.drop cap) ++ calls.flatMap WCall.chunks)) := by
+    rw [hpre, hpsk, hrs]; exact hfr
+  obtain ⟨hread, hwt, htn⟩ := client_first_call hC ch (b.take cap) _ c now hr (by rw [hpsk]; exact hsalt) hts hp0 hp1 hv hfr2
+  have hstream : stream = b.take cap ++ (writeChunks (b.drop cap) ++ calls.flatMap WCall.chunks).flatten := by
+    simp only [stream, List.flatten_append, writeChunks_flatten, calls_flatten]
+    rw [← List.append_assoc, List.take_append_drop]
+  refine ⟨fun n => ?_, ?_, fun started => ?_⟩
+  · obtain ⟨r', h1, h2, h3, h4, h5⟩ := hread n
+    refine ⟨r', _, h1, h2, h3, ?_, h5⟩
+    rw [hstream, pending, ← List.append_assoc, ← h4]
+  · rw [hwt, hstream]; exact ⟨by simp [ROut.bytes], rfl⟩
+  · rw [htn started, hstream]; exact ⟨by simp [ROut.bytes], rfl⟩
+
 /-- the splitting loops of `Write` / `ReadFrom` lose nothing and respect the chunk limit -/
 theorem writer_chunks_valid (calls : List WCall) :
     ValidChunks (calls.flatMap WCall.chunks) ∧
@@ -173,3 +245,4 @@ end SSV.C01
 #print axioms SSV.C01.segmentation_irrelevant
 #print axioms SSV.C01.writer_chunks_valid
 #print axioms SSV.C01.p_first_partial
+#print axioms SSV.C01.response_roundtrip
